@@ -4,7 +4,7 @@
     sentinel and is tiled EXACTLY by free-list nodes and objects, the free list is strictly increasing,
     coalesced (no two chunks adjacent), sizes positive and aligned, all mark bits clear. *)
 From Coq Require Import ZArith List Permutation.
-From ChibiV Require Import Gen.C10_Consts C10.Model C10.Spec C10.Proofs C10.Sweep C10.Theorems C10.More C10.Oom C10.SizeClass C10.Examples C10.Closed.
+From ChibiV Require Import Gen.C10_Consts C10.Model C10.Spec C10.Proofs C10.Sweep C10.Theorems C10.More C10.Oom C10.SizeClass C10.Examples C10.Closed C10.Image C10.ImageProofs.
 Import ListNotations.
 Local Open Scope Z_scope.
 
@@ -150,3 +150,71 @@ Theorem marks_closed_strong_necessary : forall M sl,
   closed M (fun a => reset_slots M (sl a)) -> forall a, In a M -> forall b, In (Some b) (strong (sl a)) -> In b M.
 Proof. exact strong_closed_necessary. Qed.
 Print Assumptions marks_closed_strong_necessary.
+
+(** round 3: the SECOND way a context comes into being — an image (chibi-scheme -i, sexp_load_image).  The segment is
+    built by hand by gc_heap.c sexp_gc_packed_heap_make, whose arithmetic is TRANSLATED from the source into
+    [pk_req], [pk_hsize], [pk_chunk] (Gen/C10_Consts.v).  For ALL packed contents and ALL requested free sizes the
+    segment is an exact tiling — the packed objects where the image was read to, then one free chunk ending EXACTLY at
+    the segment end (the sentinel pad is not part of it) — of aligned size, inside the malloc'ed block. *)
+Theorem packed_heap_make_inv : forall objs free,
+  run_ok objs -> unmarked objs -> 0 <= free ->
+  let h := fst (packed_heap_make objs free) in
+  heap_inv h /\ heap_unmarked h /\
+  hsize h <= snd (packed_heap_make objs free) /\
+  heap_objs h = pos_objs hdr_sz objs /\
+  hsize h = hdr_sz + run_bytes objs + packed_free free /\
+  free_list h = (if packed_free free =? 0 then [] else [(hdr_sz + run_bytes objs, packed_free free)]) /\
+  free <= packed_free free.
+Proof. exact packed_heap_make_inv_lemma. Qed.
+Print Assumptions packed_heap_make_inv.
+
+(** ... and every history of allocations and collections from a loaded image keeps the invariant *)
+Theorem inv_after_image_load : forall objs free max ops,
+  run_ok objs -> unmarked objs -> 0 <= free -> Forall req_ok ops ->
+  Inv (fold_left step ops (image_state objs free max)).
+Proof. exact inv_after_image_load_lemma. Qed.
+Print Assumptions inv_after_image_load.
+
+(** round 3: the embedder's root API.  [preserve] / [release] mirror sexp_preserve_object / sexp_release_object
+    (gc.c:116-129) on the list SEXP_G_PRESERVATIVES; [rstep] adds the sexp_gc_preserve frames.  Over ANY history the
+    list holds every object as often as it was preserved minus released (never below zero). *)
+Theorem pres_count_history : forall ops r x,
+  count_occ oaddr_dec (pres (fold_left rstep ops r)) x
+  = fold_left (balance_step x) ops (count_occ oaddr_dec (pres r) x).
+Proof. exact pres_count_history_lemma. Qed.
+Print Assumptions pres_count_history.
+
+(** after the release of the LAST preservation of x, and a collection whose marks are exactly the objects reachable
+    from the roots as they are now (C02's property: the stated interface), x is no object of the swept heap — its
+    storage is a free chunk (sweep_inv: exact tiling) — unless x is reachable from what remains *)
+Theorem release_unroots : forall r x sl st st' mf sf,
+  count_occ oaddr_dec (pres r) x = 1%nat ->
+  let r' := rstep r (RRelease x) in
+  ~ In x (pres r') /\
+  (heaps st <> [] -> Forall heap_inv (heaps st) ->
+   (forall a, In a (marked_addrs st) <-> In a (obj_addrs st) /\ reach sl (root_list r') a) ->
+   sweep st = Some (st', mf, sf) ->
+   ~ reach sl (root_list r') x -> ~ In x (obj_addrs st')).
+Proof. exact release_unroots_lemma. Qed.
+Print Assumptions release_unroots.
+
+(** lifted over histories of preserve / release / frame push / frame pop *)
+Theorem release_unroots_history : forall ops r0 x sl st st' mf sf,
+  let r := fold_left rstep ops r0 in
+  fold_left (balance_step x) ops (count_occ oaddr_dec (pres r0) x) = 0%nat ->
+  ~ In x (pres r) /\
+  (heaps st <> [] -> Forall heap_inv (heaps st) ->
+   (forall a, In a (marked_addrs st) <-> In a (obj_addrs st) /\ reach sl (root_list r) a) ->
+   sweep st = Some (st', mf, sf) ->
+   ~ reach sl (root_list r) x -> ~ In x (obj_addrs st')).
+Proof. exact release_unroots_history_lemma. Qed.
+Print Assumptions release_unroots_history.
+
+(** and nothing still rooted is lost *)
+Theorem rooted_survives : forall r sl st st' mf sf x,
+  heaps st <> [] -> Forall heap_inv (heaps st) ->
+  (forall a, In a (marked_addrs st) <-> In a (obj_addrs st) /\ reach sl (root_list r) a) ->
+  sweep st = Some (st', mf, sf) ->
+  In x (obj_addrs st) -> reach sl (root_list r) x -> In x (obj_addrs st').
+Proof. exact rooted_survives_lemma. Qed.
+Print Assumptions rooted_survives.
